@@ -550,7 +550,17 @@ where
                 break;
             }
             match item {
-                Ok(ScanItem::Object(rf, p)) => items.push(format!("obj {} {} {}", rf.id, rf.gen, crate::common::show_val(&prim_to_val_hashed(&p, &r)))),
+                Ok(ScanItem::Object(rf, p)) => {
+                    // (the printed form of a stream shows the size of its data only: add a digest of the bytes the scan hands out)
+                    let data = match &p {
+                        Primitive::Stream(s) => match s.raw_data(&r) {
+                            Ok(d) => format!(" data={}", bytes_s(&d)),
+                            Err(e) => format!(" data=ERR:{}", err_variant(&e)),
+                        },
+                        _ => String::new(),
+                    };
+                    items.push(format!("obj {} {} {}{}", rf.id, rf.gen, crate::common::show_val(&prim_to_val_hashed(&p, &r)), data))
+                }
                 Ok(ScanItem::Trailer(d)) => items.push(format!("trailer {}", show_dict(&d))),
                 Err(e) => items.push(format!("ERR:{}", err_variant(&e))),
             }
